@@ -301,6 +301,7 @@ func runServerScenario(t *testing.T, sc *srvScenario, pickFn func(n int) int, sk
 		r.cli, r.sch = newVPair()
 		r.srv = jrpc2.NewServer(srvMux{r}, &jrpc2.ServerOptions{Concurrency: sc.Concurrency, AllowPush: sc.AllowPush}).Start(r.sch)
 		nextOp := 0
+		lastSeq := 0
 		reads := 0
 		steps := 0
 		var statusCh chan jrpc2.ServerStatus
@@ -308,6 +309,16 @@ func runServerScenario(t *testing.T, sc *srvScenario, pickFn func(n int) int, sk
 			synctest.Wait()
 			r.drainOut()
 			ps := r.sched.snapshot()
+			for _, p := range ps {
+				if p.seq > lastSeq && p.site == "srv.barrier.wait" {
+					r.logf("parked %s", p.site) // the dispatcher has popped and checked the next batch
+				}
+			}
+			for _, p := range ps {
+				if p.seq > lastSeq {
+					lastSeq = p.seq
+				}
+			}
 			gs := r.openGates()
 			if sc.AutoRelease && len(gs) > 0 {
 				r.releaseGate(gs[0])
@@ -357,6 +368,20 @@ func runServerScenario(t *testing.T, sc *srvScenario, pickFn func(n int) int, sk
 					} else {
 						r.logf("readerr %v", p.b)
 					}
+				case "srv.invoke.acquire":
+					tag := ""
+					if rq, ok := p.b.(*jrpc2.Request); ok && rq != nil {
+						var ps []string
+						rq.UnmarshalParams(&ps)
+						if len(ps) > 0 {
+							tag = ps[0]
+						} else {
+							tag = "method:" + rq.Method()
+						}
+					}
+					r.logf("run %s %s", p.site, tag)
+				case "srv.cancel.enter", "srv.waitcb.enter":
+					r.logf("run %s %v", p.site, p.b)
 				default:
 					r.logf("run %s", p.site)
 				}
